@@ -44,9 +44,7 @@ type schedRun struct {
 }
 
 func (r *schedRun) mon(s string) {
-	if len(r.st.Monitors) < 80 {
-		r.st.Monitors = append(r.st.Monitors, s)
-	}
+	addMonitor(&r.st.Monitors, s)
 }
 
 func goid() int {
